@@ -194,8 +194,17 @@ def run(modname: str, tier: str, seed: int, workers: int) -> int:
                     if w is not None and (s["world"] is None or world_size(w) < world_size(s["world"])):
                         s["world"], s["detail"] = w, detail
     wall = time.time() - t0
-    known = [k for k in load_known() if k.get("property") == pid]
-    known_open = {k["signature"]: k for k in known if k.get("status") == "known"}
+    import fnmatch
+
+    known = [k for k in load_known() if k.get("property") == pid and k.get("status") == "known"]
+
+    def known_entry(sig: str):
+        for k in known:
+            if k.get("signature") == sig or (k.get("signature_glob") and fnmatch.fnmatchcase(sig, k["signature_glob"])):
+                return k
+        return None
+
+    known_hits: Dict[str, Dict[str, Any]] = {}
     new_viol = 0
     nconf = 0
     lines: List[str] = []
@@ -217,12 +226,17 @@ def run(modname: str, tier: str, seed: int, workers: int) -> int:
             if not ok:
                 print(f"HARNESS-ERROR property={pid} nondeterministic replay for {sig}: {msg}")
                 return 2
-        if sig in known_open:
-            lines.append(f"KNOWN-FINDING: property={pid} {sig} :: {known_open[sig].get('description','')} "
-                         f"(occurrences={s['count']}, replay={path})")
+        ke = known_entry(sig)
+        if ke is not None:
+            h = known_hits.setdefault(ke.get("signature") or ke.get("signature_glob"), dict(entry=ke, sigs=[], count=0, replay=path))
+            h["sigs"].append(sig)
+            h["count"] += s["count"]
         else:
             new_viol += 1
             lines.append(f"VIOLATION property={pid} replay={path} signature={sig} occurrences={s['count']}")
+    for name, h in sorted(known_hits.items()):
+        lines.insert(0, f"KNOWN-FINDING: property={pid} {name} :: {h['entry'].get('description', '')} "
+                        f"(matched signatures={len(h['sigs'])}, occurrences={h['count']}, replay={h['replay']})")
     vacuous = None
     min_out = int(bounds.get("min_outcomes", 2))
     if agg["n"] == 0:
@@ -248,6 +262,7 @@ def run(modname: str, tier: str, seed: int, workers: int) -> int:
             samples=samples[:4],
             generator_stats={k: v for k, v in stats.items() if k != "transitions"},
             violation_signatures={k: v["count"] for k, v in sigs.items()},
+            known_findings_matched={k: v["sigs"] for k, v in known_hits.items()},
             repo=repo_path(),
         ),
         assumptions=list(mod.ASSUMPTIONS),
